@@ -206,7 +206,9 @@ class FakeDecimalModule:
 
 DEC_RULES = {"": [(Fraction(-9999999999999999999999999999999, 10 ** 12), Fraction(9999999999999999999999999999999, 10 ** 12))],
              "0...299.99": [(Fraction(0), Fraction(29999, 100))],
-             "-1.5:20.25, 30:": [(Fraction(-3, 2), Fraction(81, 4)), (Fraction(30), None)]}
+             "-1.5:20.25, 30:": [(Fraction(-3, 2), Fraction(81, 4)), (Fraction(30), None)],
+             "...99.99": [(None, Fraction(9999, 100))]}
+DEC_SPECIALS = ["NaN", "sNaN", "Infinity", "-Infinity"]
 SEPARATORS = [(".", ""), (".", ","), (",", "."), (",", "")]
 
 
@@ -228,11 +230,11 @@ def translate_oracle(cell, dsep, tsep):
     return out
 
 
-def make_decimal(rule, dsep, tsep, fmt, maxlen, scale=2):
+def make_decimal(rule, dsep, tsep, fmt, maxlen, scale=2, specials=False):
     items = DEC_RULES[rule]
     den = 10 ** scale
 
-    def go(cell, fail, k):
+    def go(cell, fail, k, special=0):
         from cutplace import fields, errors, data
 
         props = []
@@ -242,7 +244,14 @@ def make_decimal(rule, dsep, tsep, fmt, maxlen, scale=2):
         field = ff.build_field("Decimal", False, "", rule, df)
         assume(1 <= len(cell) <= maxlen)
         assume(-10 ** 6 < k < 10 ** 6)
+        if specials:
+            assume(1 <= special <= len(DEC_SPECIALS))
+        else:
+            assume(special == 0)
         value = decimal.Decimal(k).scaleb(-scale)
+        if special > 0:
+            # the parser may also answer with a non-number: it is no 'number inside the rule's range'
+            value = decimal.Decimal(DEC_SPECIALS[special - 1])
         fake = FakeDecimalModule(fail, value)
         exp_text = translate_oracle(cell, dsep, tsep)
         exp_in = False
@@ -251,7 +260,7 @@ def make_decimal(rule, dsep, tsep, fmt, maxlen, scale=2):
             le = hi is None or k * hi.denominator <= hi.numerator * den
             if ge and le:
                 exp_in = True
-        exp = exp_text is not None and (not fail) and exp_in
+        exp = exp_text is not None and (not fail) and exp_in and special == 0
         with patched(rf.smart_repr(), (fields, "decimal", fake)):
             try:
                 result = field.validated(cell)
@@ -270,14 +279,14 @@ def make_decimal(rule, dsep, tsep, fmt, maxlen, scale=2):
                 for i in range(len(exp_text)):
                     if ord(seen[i]) != ord(exp_text[i]):
                         ok = False
-            cls = "acc" if exp else ("nan" if fail else "out")
+            cls = "acc" if exp else ("nan" if fail else ("special" if special else "out"))
         if accepted and ok:
             ok = result == value
         return ok, cls, accepted, exp
 
     def mk(mode):
-        def h(cell: str, fail: bool, k: int):
-            ok, cls, _, _ = go(cell, fail, k)
+        def h(cell: str, fail: bool, k: int, special: int):
+            ok, cls, _, _ = go(cell, fail, k, special)
             return ok, cls
 
         return h
@@ -294,7 +303,7 @@ def make_decimal(rule, dsep, tsep, fmt, maxlen, scale=2):
         field = ff.build_field("Decimal", False, "", rule, df)
         cell0 = args["cell"]
         variants = [cell0, "".join(c if c in ".,-+" else "5" for c in cell0),
-                    "".join(c if c in ".," else "1" for c in cell0)]
+                    "".join(c if c in ".," else "1" for c in cell0)] + DEC_SPECIALS + ["inf", "-inf", "+Infinity", "nan"]
         last = ""
         for cell in variants:
             t = translate_oracle(cell, dsep, tsep)
@@ -429,9 +438,11 @@ def make_datetime(rule, fmt, maxlen):
 
         df = ff.data_format(fmt)
         field = ff.build_field("DateTime", False, "", rule, df)
-        assume(1 <= len(cell) <= maxlen)
+        assume(1 <= len(cell))
+        if maxlen is not None:
+            assume(len(cell) <= maxlen)
         fake = FakeTimeModule(fail)
-        strip_suffix = (fmt == "excel") and (not has_time) and len(cell) >= 9 and same(cell[len(cell) - 9:], suffix)
+        strip_suffix = (fmt == "excel") and (not has_time) and len(cell) >= 9 and cell.endswith(suffix)
         exp_text = cell[:len(cell) - 9] if strip_suffix else cell
         with patched(rf.smart_repr(), (fields, "time", fake)):
             try:
@@ -440,7 +451,7 @@ def make_datetime(rule, fmt, maxlen):
             except errors.FieldValueError:
                 accepted = False
                 result = None
-        ok = accepted == (not fail) and len(fake.seen) == 1 and same(fake.seen[0][0], exp_text) \
+        ok = accepted == (not fail) and len(fake.seen) == 1 and fake.seen[0][0] == exp_text \
             and fake.seen[0][1] == exp_format and (not accepted or result is fake.token)
         return ok, ("acc" if not fail else "rej") + ("-suffix" if strip_suffix else "")
 
@@ -453,23 +464,32 @@ def make_datetime(rule, fmt, maxlen):
     def replay(args):
         import time
         from cutplace import errors
-        cell = args["cell"]
         df = ff.data_format(fmt)
         field = ff.build_field("DateTime", False, "", rule, df)
-        text = cell[:-9] if (fmt == "excel" and not has_time and cell.endswith(suffix)) else cell
-        try:
-            exp_val = time.strptime(text, exp_format)
-            exp = True
-        except ValueError:
-            exp_val, exp = None, False
-        try:
-            r = field.validated(cell)
-            accepted = True
-        except errors.FieldValueError as e:
-            r, accepted = e, False
-        bad = accepted != exp or (accepted and r != exp_val)
-        return bad, "DateTime(rule=%r, %s).validated(%r) -> %r, expected %r via strptime(%r, %r)" % (
-            rule, fmt, cell, r, exp_val, text, exp_format), "datetime-field"
+        # the stubbed strptime answered arbitrarily: besides the cell itself, texts the real strptime accepts for this
+        # layout (a midnight and a non-midnight instant), each also with the Excel suffix
+        samples = [args["cell"]]
+        for st in (time.struct_time((2003, 2, 1, 0, 0, 0, 5, 32, -1)), time.struct_time((1999, 12, 31, 23, 59, 58, 4, 365, -1))):
+            t = time.strftime(exp_format, st)
+            samples += [t, t + suffix]
+        last = ""
+        for cell in samples:
+            text = cell[:-9] if (fmt == "excel" and not has_time and cell.endswith(suffix)) else cell
+            try:
+                exp_val = time.strptime(text, exp_format)
+                exp = True
+            except ValueError:
+                exp_val, exp = None, False
+            try:
+                r = field.validated(cell)
+                accepted = True
+            except errors.FieldValueError as e:
+                r, accepted = e, False
+            last = "DateTime(rule=%r, %s).validated(%r) -> %r, expected %r via strptime(%r, %r)" % (
+                rule, fmt, cell, r, exp_val, text, exp_format)
+            if accepted != exp or (accepted and r != exp_val):
+                return True, last, "datetime-field"
+        return False, last, "datetime-field"
 
     return mk, replay
 
@@ -803,9 +823,10 @@ def build(tier, seed):
     for rule in DEC_RULES:
         for dsep, tsep in SEPARATORS:
             dec.append((rule, dsep, tsep, "delimited"))
-    dec += [("0...299.99", ".", "", "excel"), ("0...299.99", ".", "", "ods"), ("", ",", ".", "fixed")]
+    ndel = len(dec)
+    dec += [("0...299.99", ".", "", "excel"), ("0...299.99", ".", "", "ods"), ("...99.99", ".", "", "excel"), ("", ",", ".", "fixed")]
     if tier == "quick":
-        dec = rnd.sample(dec[:12], 4) + dec[12:]
+        dec = rnd.sample(dec[:ndel], 4) + [("...99.99", ".", ",", "delimited"), ("-1.5:20.25, 30:", ",", ".", "delimited")] + dec[ndel:]
     for rule, dsep, tsep, fmt in dec:
         if fmt == "fixed":
             continue  # fixed: blank padding is C03's subject; Decimal under fixed is exercised natively below
@@ -816,6 +837,11 @@ def build(tier, seed):
                        budget_s=600, per_path_timeout=60, expect=("acc", "nan", "out") if rule else ("acc", "nan"),
                        replay=rp, functions=FUNCS,
                        stubs=("S-DEC fields.decimal.Decimal -> InvalidOperation or a symbolic finite decimal; records the text", "S-FMT")))
+    for rule, dsep, tsep, fmt in (("...99.99", ".", ",", "delimited"), ("-1.5:20.25, 30:", ".", "", "delimited"), ("", ".", "", "excel")):
+        mk, rp = make_decimal(rule, dsep, tsep, fmt, 2, specials=True)
+        q.append(Query("C02/Decimal-specials/%s/rule=%r" % (fmt, rule), "decimal-specials", mk,
+                       "Decimal field (rule %r, %s): the parser answers NaN / sNaN / Infinity / -Infinity: never accepted" % (rule, fmt),
+                       budget_s=300, expect=("special", "nan"), replay=rp, functions=FUNCS, stubs=("S-DEC with special values", "S-FMT")))
     # Choice / Constant / Text
     for rule, choices in CHOICE_RULES.items():
         if choices is None:
@@ -832,15 +858,16 @@ def build(tier, seed):
         q.append(Query("C02/Text/%s" % fmt, "text", make_text(fmt), "Text field (%s): every cell, no length bound" % fmt,
                        budget_s=120, expect=("acc",), functions=FUNCS, stubs=("S-FMT",)))
     # DateTime
-    rules = DATE_RULES if tier == "thorough" else DATE_RULES[:4]
+    rules = DATE_RULES if tier == "thorough" else DATE_RULES[:5]
     for rule in rules:
         for fmt in ("delimited", "excel"):
-            mk, rp = make_datetime(rule, fmt, 12 if tier == "quick" else 20)
             has_time = any(t in rule for t in ("hh", "mm", "ss"))
+            bound = 12 if (fmt == "excel" and not has_time) else None
+            mk, rp = make_datetime(rule, fmt, bound)
             exp = ("acc", "rej") + (("acc-suffix", "rej-suffix") if (fmt == "excel" and not has_time) else ())
             q.append(Query("C02/DateTime/%s/%r" % (fmt, rule), "datetime", mk,
-                           "DateTime field %r (%s): every cell up to %d characters; what reaches strptime and what comes "
-                           "back" % (rule, fmt, 12 if tier == "quick" else 20), budget_s=300, expect=exp, replay=rp,
+                           "DateTime field %r (%s): every cell (%s); what reaches strptime and what comes "
+                           "back" % (rule, fmt, "no length bound" if bound is None else "up to %d characters" % bound), budget_s=300, expect=exp, replay=rp,
                            functions=FUNCS, stubs=("S-STRP fields.time.strptime -> ValueError or an opaque token; records (text, format)", "S-FMT")))
     for ra, rb in (("DD.MM.YYYY", "MM.DD.YYYY"), ("YYYYMMDD", "hhmmss")):
         mk, rp = make_datetime_pair(ra, rb, 12)
